@@ -40,4 +40,9 @@ def offered : Reply → Bool
 def deliveredInOrder (H : Bytes → Bytes) (S : Scheme) (sent : Bid) (rs : List Reply) (order : List Nat) : List Delivered :=
   order.filterMap (fun i => (rs[i]?).bind (outcome H S sent))
 
+/-- the fan-out: one goroutine per provider connected when the call was made, each handed *its*
+provider and the one signed bid of this call (`go func(provider p2p.Peer){…}(providers[idx])`) -/
+def fanOut {P : Type} (providers : List P) (sent : Bid) : List (P × Bid) :=
+  providers.map (fun p => (p, sent))
+
 end MevCommit.SendBid
